@@ -155,6 +155,10 @@ func (r *armoredReader) Read(p []byte) (int, error) {
 	if len(line) > format.ColumnsPerLine {
 		return 0, r.setErr(errors.New("column limit exceeded"))
 	}
+	// CR and LF are ignored by Decode, but we don't want any malleability.
+	if bytes.ContainsAny(line, "\n\r") {
+		return 0, r.setErr(errors.New("unexpected newline character"))
+	}
 	n, err := base64.StdEncoding.Strict().Decode(r.buf[:], line)
 	if err != nil {
 		return 0, r.setErr(err)
